@@ -502,6 +502,13 @@ def c01_prop():
         for cn in ("ps", "pr", "dc", "tc"):
             quick.append(H(MPMC, "step_c01_c%d_%s" % (cap, cn), "step", est_s=80, est_gb=1.5,
                            bounds="E-STEP mpmc capacity %d, class %s: both queues = exactly the live registered futures, stored wakers" % (cap, cn), **full))
+    # a dropped future's task is never woken again (functional consequence of "no dangling waiter"), deeper, fast profile
+    quick += [
+        H(MUTEX, "hist_c01_p3_n7", "hold", replay=("mutex_hist_noop", 2 | (3 << 2)), mask=P(1), est_s=120, bounds="E-HIST mutex N=7 (3-poll prefix): the task of a dropped future is never woken; no panic"),
+        H(SEM, "hist_c01_x_p1s_n5", "hold", replay=("sem_hist_noop", sem_cfg(2, 1, 0, 1)), mask=P(1), est_s=300, est_gb=3.5, timeout=900, bounds="E-HIST semaphore 'steal' partition N=5: dropped futures never woken; no panic"),
+        H(EVENT, "hist_c01_n5", "hold", replay=("event_hist_noop", 2), mask=P(1), est_s=100, bounds="E-HIST event N=5: dropped futures never woken"),
+        H(ONESHOT_BC, "hist_c01_n5", "hold", replay=("oneshot_bc_hist_noop", 0), mask=P(1), est_s=100, bounds="E-HIST oneshot-broadcast N=5: dropped futures never woken"),
+    ]
     # contract-respecting histories never panic / never double-lock (E-HIST, all default checks)
     quick += [
         H(MUTEX, "hist_c01_n4", "hold", replay=("mutex_hist_noop", 2), mask=P(1), est_s=120, bounds="E-HIST mutex N=4, all Kani default checks (panics, pointer checks)", **full),
